@@ -20,6 +20,15 @@ NameA    == <<97, 46, 101, 120, 97, 109, 112, 108, 101>>                        
 NameB    == <<98, 46, 101, 120, 97, 109, 112, 108, 101, 46, 99, 111, 109>>        \* b.example.com
 NameLong == Rep(97, 63) \o <<46>> \o Rep(98, 63) \o <<46>> \o Rep(99, 63) \o <<46, 100, 101>>   \* 63.63.63.de
 NameX    == <<120>>                                                               \* x (not a host_name entry)
+\* example.com, and names a client may legally send (HostName is an opaque byte string <1..2^16-1>) that
+\* differ from it only by bytes a careless consumer might drop: a control character, a line break, a byte
+\* that is not UTF-8, a long tail of DEL bytes; and one that differs by letter case only
+Example  == <<101, 120, 97, 109, 112, 108, 101, 46, 99, 111, 109>>
+NameCtl  == <<101, 120, 97, 1, 109, 112, 108, 101, 46, 99, 111, 109>>
+NameNL   == Example \o <<10>>
+NameFF   == <<101, 120, 97, 109, 112, 108, 101, 255, 46, 99, 111, 109>>
+NameDel  == Example \o Rep(127, 300)
+NameUp   == <<69, 88, 65, 77, 80, 76, 69, 46, 99, 111, 109>>
 H2       == <<104, 50>>                                                           \* h2
 Http11   == <<104, 116, 116, 112, 47, 49, 46, 49>>                                \* http/1.1
 
@@ -57,6 +66,12 @@ TplQuick == {
   T("other-first",  0,  2, TRUE,  <<SN(<<Other(NameX), Host(NameB)>>), ALPN>>, NameB),           \* first host_name is the second entry
   T("other-hidden", 0,  2, TRUE,  <<SN(<<Other(Hidden), Host(NameA)>>)>>, NameA),                \* a host_name entry is NOT hidden in opaque bytes
   T("two-others",   32, 2, TRUE,  <<ALPN, SN(<<Other(NameX), Other(NameB), Host(NameA)>>)>>, NameA),
+  T("name-example", 0,  2, TRUE,  <<SN(<<Host(Example)>>), ALPN>>, Example),
+  T("name-ctl",     0,  2, TRUE,  <<SN(<<Host(NameCtl)>>), ALPN>>, NameCtl),
+  T("name-nl",      0,  2, TRUE,  <<SN(<<Host(NameNL)>>), ALPN>>, NameNL),
+  T("name-ff",      0,  2, TRUE,  <<SN(<<Host(NameFF)>>), ALPN>>, NameFF),
+  T("name-del",     0,  2, TRUE,  <<SN(<<Host(NameDel)>>), ALPN>>, NameDel),
+  T("name-upper",   0,  2, TRUE,  <<SN(<<Host(NameUp)>>), ALPN>>, NameUp),
   TBad("other-empty", 0, 2, TRUE, <<SN(<<Other(<<>>), Host(NameB)>>)>>, NameB)                   \* an empty entry (01 00 00): names are <1..2^16-1>
 }
 TplThorough == TplQuick \cup {
@@ -162,13 +177,21 @@ HdrCombos(n) == LET rl == n - 5  hl == n - 9 IN
     { <<r, h>> : r \in {0, 1, 3, 4, 5, rl - 1, rl, rl + 1, 16383, 16384, 16385, 65535},
                  h \in {0, 1, hl - 1, hl, hl + 1, rl - 4, rl - 3, 16380, 16381, 65536, 16777215} } \ {<<rl, hl>>}
 
+\* Routing (C10: "SNI routing uses the server name the TLS stack itself would see"): the routing table has
+\* routes for these hosts; host names are case-insensitive; a hello is routed by exactly its server name
+RouteTable == {Example, NameA}
+Lower(nm) == [k \in DOMAIN nm |-> IF nm[k] \in 65..90 THEN nm[k] + 32 ELSE nm[k]]
+RouteOf(nm) == IF Lower(nm) \in RouteTable THEN Lower(nm) ELSE <<>>
+\* the name templates concern routing, not parsing: they are not corrupted
+IsNameTpl(m) == m.id \in {"name-example", "name-ctl", "name-nl", "name-ff", "name-del", "name-upper"}
+
 \* the full-record hellos get the corruptions that concern the record boundary only (16 K bytes per case)
 CorrsBig(m) ==
     LET n == Len(Full(NoCorr, m)) IN
     {NoCorr} \cup { C("len", f, 0, h, 0) : f \in {"rec", "hs"}, h \in {"minus", "plus"} }
     \cup { C("trunc", "", 0, "", k) : k \in {n - 1, n - 2} }
 CorrsOf(m) ==
-    IF IsBig(m) THEN CorrsBig(m) ELSE
+    IF IsBig(m) THEN CorrsBig(m) ELSE IF IsNameTpl(m) THEN {NoCorr} ELSE
     LET n == Len(Full(NoCorr, m)) IN
     {NoCorr}
     \cup { C("len", f[1], f[2], h, 0) : f \in LenFields(m), h \in Hows }
@@ -197,7 +220,7 @@ MCConfigs == { [name |-> nm, vmin |-> v[1], vmax |-> v[2], alpn |-> a, curves |-
 CaseJson == [tpl |-> cs.tpl,
              corr |-> [kind |-> cs.corr.kind, f |-> cs.corr.f, i |-> cs.corr.i, how |-> cs.corr.how, at |-> cs.corr.at,
                        f2 |-> cs.corr.f2, i2 |-> cs.corr.i2, how2 |-> cs.corr.how2],
-             bytes |-> bytes, wf |-> cs.wf, wfname |-> cs.wfname,
+             bytes |-> bytes, wf |-> cs.wf, wfname |-> cs.wfname, route |-> RouteOf(cs.wfname), table |-> RouteTable,
              class |-> out.class, must |-> out.must, why |-> out.why, name |-> name, size |-> size, path |-> path]
 GenOut == Done => PrintT(ToJson(CaseJson))
 
